@@ -1,14 +1,185 @@
-(** C11 — property theorems only. *)
-From Coq Require Import Reals QArith Qreals.
-From PV Require Import Lib.Common Model.C11_MapFn Proofs.C11_MapFn.
-Local Open Scope R_scope.
+(** C11 — genetic maps and map functions obey their defining laws.
+    Property theorems only: statement, [exact] of a lemma proved in Proofs/, [Print Assumptions].
+    Models: Model/C11_MapFn.v (Haldane/Kosambi over R + verified interval evaluator),
+            Model/C11_Map.v  (StandardGeneticMap / ExtendedGeneticMap / interp_xoprob, exact rationals),
+            Model/C11_Check.v (the comparisons evaluated by the correspondence shards). *)
+From Coq Require Import Reals QArith Qreals Sorting.Sorted Sorting.Permutation.
+From PV Require Import Lib.Common Model.C11_Map Model.C11_MapFn Model.C11_Check Proofs.C11_Map Proofs.C11_MapFn Proofs.C11_Xo.
 
+(** * map functions *)
+(** both map functions send 0 to 0, [0,inf) into [0,1/2), are strictly increasing, tend to 1/2 at infinity, are undone
+    by their inverse on all of R, and undo their inverse on [0,1/2) (where the inverse is a non-negative distance) *)
 Theorem C11_mapfn_laws : forall k : mapkind,
-  mapfn k 0 = 0 /\
+  (mapfn k 0 = 0 /\
   (forall d, 0 <= d -> 0 <= mapfn k d < 1 / 2) /\
   (forall d1 d2, d1 < d2 -> mapfn k d1 < mapfn k d2) /\
   (forall eps, 0 < eps -> exists D, 0 <= D /\ forall d, D <= d -> 1 / 2 - eps < mapfn k d < 1 / 2) /\
   (forall d, invmapfn k (mapfn k d) = d) /\
-  (forall r, 0 <= r < 1 / 2 -> mapfn k (invmapfn k r) = r /\ 0 <= invmapfn k r).
+  (forall r, 0 <= r < 1 / 2 -> mapfn k (invmapfn k r) = r /\ 0 <= invmapfn k r))%R.
 Proof. exact mapfn_laws. Qed.
 Print Assumptions C11_mapfn_laws.
+
+(** a [true] answer of the point checks evaluated in the shards bounds the distance between the implementation's
+    binary64 value (r, resp. d) and the real-valued function (Coq-Interval enclosures at 80 bits) *)
+Theorem C11_mapfn_check_sound : forall k d r, mapfn_ok k d r = true ->
+  (Rabs (mapfn k (Q2R d) - Q2R r) <= Q2R (tol45 * (1 + Qabs_ r)))%R.
+Proof. exact mapfn_ok_sound. Qed.
+Print Assumptions C11_mapfn_check_sound.
+
+Theorem C11_invmapfn_check_sound : forall k r d, (- (1 / 2) < Q2R r < 1 / 2)%R -> invmapfn_ok k r d = true ->
+  (Rabs (invmapfn k (Q2R r) - Q2R d) <= Q2R (tol45 * (1 + Qabs_ d)))%R.
+Proof. exact invmapfn_ok_sound. Qed.
+Print Assumptions C11_invmapfn_check_sound.
+
+(** * constructor *)
+(** the constructor stores a permutation of the supplied rows, sorted by (chromosome, physical, genetic) *)
+Theorem C11_constructor_sorts : forall input, Permutation (gm_rows input) input /\ StronglySorted key_le (gm_rows input).
+Proof. intros input. split; [apply sort_rows_perm | apply sort_rows_strongly]. Qed.
+Print Assumptions C11_constructor_sorts.
+
+(** nothing depends on the order in which the rows were supplied (no duplicated physical position on a chromosome):
+    stored rows incl. the ExtendedGeneticMap payload, group metadata, interpolation, interp_gmap, congruence, crossover gaps *)
+Theorem C11_row_order_independent : forall l l', distinct_pos l -> Permutation l l' ->
+  gm_rows l = gm_rows l' /\ gm_meta l = gm_meta l' /\
+  (forall q, interp_genpos (gm_rows l) q = interp_genpos (gm_rows l') q) /\
+  (forall q, interp_gmap l q = interp_gmap l' q) /\
+  congruence (gm_rows l) = congruence (gm_rows l') /\
+  (forall v, gmat_gaps (gm_rows l) v = gmat_gaps (gm_rows l') v).
+Proof. exact map_row_order_independent. Qed.
+Print Assumptions C11_row_order_independent.
+
+(** group metadata: the four arrays have one entry per group, (name, length) run-length-decodes to the label array,
+    and on a sorted label array the names are strictly increasing *)
+Theorem C11_group_metadata : forall chrs,
+  (let '(names, st, sp, ln) := group_meta chrs in
+   length st = length names /\ length sp = length names /\ length ln = length names /\ decode_runs (combine names ln) = chrs)
+  /\ (Sorted Z.le chrs -> Sorted Z.lt (map fst (runs chrs))).
+Proof. intros chrs. split; [apply group_meta_shape | apply runs_names_incr]. Qed.
+Print Assumptions C11_group_metadata.
+
+(** * distances *)
+(** pairwise distances: symmetric, infinite between chromosomes, zero on the diagonal, non-negative, additive along a
+    chromosome for ordered markers *)
+Theorem C11_pairwise_distance_laws : forall chrs gens, length chrs = length gens -> Forall is_position gens ->
+  let n := length chrs in
+  let M i j := nth j (nth i (gdist2g chrs gens None None None None) []) NaN in
+  forall i j, (i < n)%nat -> (j < n)%nat ->
+    ext_equiv (M i j) (M j i) /\
+    (nth i chrs 0%Z <> nth j chrs 0%Z -> M i j = PInf) /\
+    (forall g, nth i gens NaN = Fin g -> ext_equiv (M i i) (Fin 0)) /\
+    (forall d, M i j = Fin d -> (0 <= d)%Q) /\
+    (forall k gi gj gk, (k < n)%nat -> nth i chrs 0%Z = nth j chrs 0%Z -> nth j chrs 0%Z = nth k chrs 0%Z ->
+       nth i gens NaN = Fin gi -> nth j gens NaN = Fin gj -> nth k gens NaN = Fin gk -> (gi <= gj)%Q -> (gj <= gk)%Q ->
+       exists dij djk dik, M i j = Fin dij /\ M j k = Fin djk /\ M i k = Fin dik /\ (dik == dij + djk)%Q).
+Proof. exact pairwise_distance_laws. Qed.
+Print Assumptions C11_pairwise_distance_laws.
+
+(** sequential distances: +inf at the first marker and at every change of chromosome (where the pairwise distance is
+    +inf too), the first difference inside a chromosome, equal to the pairwise distance to the predecessor for ordered markers *)
+Theorem C11_sequential_agrees_with_pairwise : forall chrs gens, length chrs = length gens -> Forall is_position gens ->
+  let n := length chrs in
+  let s := gdist1g chrs gens None None in
+  let M i j := nth j (nth i (gdist2g chrs gens None None None None) []) NaN in
+  length s = n /\
+  ((0 < n)%nat -> nth 0 s NaN = PInf) /\
+  forall j, (S j < n)%nat ->
+    (nth j chrs 0%Z <> nth (S j) chrs 0%Z -> nth (S j) s NaN = PInf /\ M j (S j) = PInf) /\
+    (nth j chrs 0%Z = nth (S j) chrs 0%Z -> nth (S j) s NaN = ext_sub (nth (S j) gens NaN) (nth j gens NaN)) /\
+    ((forall gp gc, nth j gens NaN = Fin gp -> nth (S j) gens NaN = Fin gc -> nth j chrs 0%Z = nth (S j) chrs 0%Z -> (gp <= gc)%Q) ->
+       ext_equiv (nth (S j) s NaN) (M j (S j))).
+Proof. exact sequential_distance_laws. Qed.
+Print Assumptions C11_sequential_agrees_with_pairwise.
+
+(** * interpolation *)
+(** interpolating a well-formed map at its own markers returns their stored positions *)
+Theorem C11_interp_own_markers : forall rows, wf_map rows ->
+  Forall2 ext_equiv (interp_genpos rows (own_pairs rows)) (fin_gens rows).
+Proof. exact interp_own_markers. Qed.
+Print Assumptions C11_interp_own_markers.
+
+(** between two consecutive markers of a chromosome the interpolated position lies on their chord (linear) *)
+Theorem C11_interp_linear_between : forall rows c i x, wf_map rows -> has_chr rows c = true ->
+  let k := knots rows c in (S i < length k)%nat -> (fst (nth i k (0%Z, 0%Q)) <= x <= fst (nth (S i) k (0%Z, 0%Q)))%Z ->
+  exists g, interp_pos rows (c, x) = Fin g /\
+    (g == chord x (fst (nth i k (0%Z, 0%Q))) (snd (nth i k (0%Z, 0%Q))) (fst (nth (S i) k (0%Z, 0%Q))) (snd (nth (S i) k (0%Z, 0%Q))))%Q.
+Proof. exact interp_linear_between. Qed.
+Print Assumptions C11_interp_linear_between.
+
+(** outside the knot range the first / last chord is continued (fill_value = "extrapolate") *)
+Theorem C11_interp_extrapolates : forall pts, (2 <= length pts)%nat -> incr (map fst pts) ->
+  let n := length pts in
+  (forall x, (x <= fst (nth 0 pts (0%Z, 0%Q)))%Z ->
+     (interp1 pts x == chord x (fst (nth 0 pts (0%Z, 0%Q))) (snd (nth 0 pts (0%Z, 0%Q))) (fst (nth 1 pts (0%Z, 0%Q))) (snd (nth 1 pts (0%Z, 0%Q))))%Q) /\
+  (forall x, (fst (nth (n - 1) pts (0%Z, 0%Q)) <= x)%Z ->
+     (interp1 pts x == chord x (fst (nth (n - 2) pts (0%Z, 0%Q))) (snd (nth (n - 2) pts (0%Z, 0%Q)))
+                              (fst (nth (n - 1) pts (0%Z, 0%Q))) (snd (nth (n - 1) pts (0%Z, 0%Q))))%Q).
+Proof. intros pts Hn Hx n. split; [apply interp1_left | apply interp1_right]; assumption. Qed.
+Print Assumptions C11_interp_extrapolates.
+
+(** on a congruent map interpolation preserves the order of physical positions (including extrapolated ones) *)
+Theorem C11_interp_order_preserving : forall rows c x x', wf_map rows -> is_congruent rows = true -> has_chr rows c = true ->
+  (x <= x')%Z -> exists g g', interp_pos rows (c, x) = Fin g /\ interp_pos rows (c, x') = Fin g' /\ (g <= g')%Q.
+Proof. exact interp_order_preserving. Qed.
+Print Assumptions C11_interp_order_preserving.
+
+(** positions on chromosomes absent from the map are reported missing, all others are finite *)
+Theorem C11_interp_off_map_missing : forall rows c x,
+  (has_chr rows c = false -> interp_pos rows (c, x) = NaN) /\
+  (has_chr rows c = true -> interp_pos rows (c, x) = Fin (interp1 (knots rows c) x)).
+Proof. intros rows c x. split; [apply interp_off_map | apply interp_on_map]. Qed.
+Print Assumptions C11_interp_off_map_missing.
+
+(** * crossover probabilities *)
+(** vrnt_xoprob: the variants are the sorted query, the first variant and every variant whose chromosome differs from
+    its predecessor's get 1/2, every other variant gets the map function of the gap between consecutive interpolated
+    positions (NaN when a position is missing); a change of chromosome marks the first variant of that chromosome *)
+Theorem C11_xoprob_is_mapfn_of_gaps : forall k rows variants,
+  let sv := sort_pairs variants in
+  let gp := interp_genpos rows sv in
+  Permutation sv variants /\ Sorted pair_le sv /\
+  length (xoprob k rows variants) = length variants /\
+  ((0 < length variants)%nat -> nth 0 (xoprob k rows variants) XNaN = XR (1 / 2)%R) /\
+  (forall j, (S j < length variants)%nat ->
+     nth (S j) (xoprob k rows variants) XNaN =
+     if (fst (nth j sv (0, 0)) =? fst (nth (S j) sv (0, 0)))%Z
+     then mapfn_ext k (ext_sub (nth (S j) gp NaN) (nth j gp NaN))
+     else XR (1 / 2)%R).
+Proof. exact xoprob_spec. Qed.
+Print Assumptions C11_xoprob_is_mapfn_of_gaps.
+
+Theorem C11_chromosome_change_is_chromosome_start : forall l j, Sorted pair_le l -> (S j < length l)%nat ->
+  fst (nth j l (0, 0)%Z) <> fst (nth (S j) l (0, 0)%Z) ->
+  forall i, (i <= j)%nat -> (fst (nth i l (0, 0)%Z) < fst (nth (S j) l (0, 0)%Z))%Z.
+Proof. exact chr_start_is_first. Qed.
+Print Assumptions C11_chromosome_change_is_chromosome_start.
+
+(** what a [true] answer of the shard's crossover-probability point check means *)
+Theorem C11_xoprob_check_sound : forall k gap gapf xo, xo_pt k gap gapf xo = true ->
+  match mapfn_ext k gap, xo with
+  | XR v, Fin x => (Rabs (v - Q2R x) <= match gap with Fin g => Q2R (tol_near g x) | _ => 0 end)%R
+  | XNaN, NaN => True
+  | _, _ => False
+  end.
+Proof. exact xo_pt_sound. Qed.
+Print Assumptions C11_xoprob_check_sound.
+
+(** * interp_gmap: the new map's group metadata is copied from the source map — wrong unless the query is the source's
+      own marker list (finding C11-interp-gmap-stale-groups) *)
+Theorem C11_interp_gmap_meta_refuted : exists input query, distinct_pos input /\
+  let '(q, g, m) := interp_gmap input query in m <> group_meta (map fst q).
+Proof. exact interp_gmap_meta_refuted. Qed.
+Print Assumptions C11_interp_gmap_meta_refuted.
+
+Theorem C11_interp_gmap_meta_partial : forall input,
+  let '(q, g, m) := interp_gmap input (own_pairs (gm_rows input)) in m = group_meta (map fst q).
+Proof. exact interp_gmap_meta_partial. Qed.
+Print Assumptions C11_interp_gmap_meta_partial.
+
+(** non-vacuity: a concrete two-chromosome, six-marker map (supplied out of order) is well-formed and congruent *)
+Example C11_hyps_satisfiable : wf_map (gm_rows wit_rows) /\ is_congruent (gm_rows wit_rows) = true /\ distinct_pos wit_rows
+  /\ has_chr (gm_rows wit_rows) 1 = true /\ incr (map fst (knots (gm_rows wit_rows) 1)).
+Proof.
+  destruct wit_wf as [W C]. split; [exact W|]. split; [exact C|]. split.
+  - unfold distinct_pos, wit_rows. cbn. repeat constructor; cbn; intuition discriminate.
+  - split; [reflexivity|]. destruct W as (S & ND & _). now apply knots_incr.
+Qed.
